@@ -284,6 +284,15 @@ def execute(ctx, spec):
         det, got, exp = bad[0]
         ctx.disagree(classify(ctx, spec, None), f"apply differs from exact action at det {det}: "
                      f"impl {got} exact {exp} ({len(bad)} dets)", spec)
+    # the result is a wavefunction of the same kind as the operand (its flags decide how the next call treats it:
+    # "results of different calls can be combined")
+    try:
+        if (out.conserve_spin(), out.conserve_number()) != (w.conserve_spin(), w.conserve_number()):
+            ctx.disagree("apply:result-loses-broken-symmetry-flags" + (":sparse" if hk in ("sparse", "fermionop") else ""),
+                         f"apply on a wavefunction with (conserve_spin, conserve_number) = {(w.conserve_spin(), w.conserve_number())} "
+                         f"returned an object with {(out.conserve_spin(), out.conserve_number())}", small)
+    except AttributeError:
+        pass
 
 
 def run(ctx):
